@@ -220,6 +220,7 @@ void build_world(World& W, Choices& c, Report& r)
   bo.check_backend_singleton_instance = false;
   bo.error_notifier = [](std::string const& m) { g_world->notes.push_back(m); };
   W.bo = bo;
+  if (is_prop("C05")) W.stalls_enabled = c.pick(3) == 2;
   W.grace_ns = static_cast<uint64_t>(bo.log_timestamp_ordering_grace_period.count()) * 1000ull;
 
   // ---- sinks and loggers ----
